@@ -7,6 +7,7 @@ import FDAProofs.Lemmas.Repr
 import FDAProofs.Lemmas.Tabular
 import FDAProofs.Lemmas.Irregular
 import FDAModel.Generated.CsvRule
+import FDAModel.Generated.BasisFormulas
 
 namespace C14
 open FDA FDA.Tab Finset
@@ -696,6 +697,48 @@ theorem read_csv_write_irregular (a : List Int) (rows : List (List (Int × ℚ))
   apply List.map_congr_left
   intro row hrow
   exact ragged_unragged a row hnd (hsub row hrow)
+
+/-! ## Translator tie: the coefficient-space formulas re-read from the source -/
+
+/-- The formulas by which `BasisFunctionalData` computes in coefficient space, as
+`harness/c14_translate.py` reads them off the source on every run (`np.einsum` subscripts of
+`to_grid`; `np.mean(·, axis=0)`; the subtraction of `center`; `coefficients @ G @ coefficients.T`
+with its transposes; `centred.T @ centred / n_obs`; `np.diag` and the exponent of `norm`; the
+exact test `weights == 0.0` and the square root of `rescale`), ARE the model's definitions all the
+commutation theorems above are about. -/
+theorem basis_formulas_match_source (N K : ℕ) (G c Φ : ℕ → ℕ → ℚ) :
+    (∀ i j, FDA.Generated.BasisFormulas.toGridSrc N K c Φ i j = toGrid K c Φ i j) ∧
+    (∀ i k, FDA.Generated.BasisFormulas.meanSrc N K c i k = meanCoef N c i k) ∧
+    (∀ i k, FDA.Generated.BasisFormulas.centerSrc N K c i k = center N c i k) ∧
+    (∀ i l, FDA.Generated.BasisFormulas.innerSrc N K G c i l = innerBasis K G c i l) ∧
+    (∀ k l, FDA.Generated.BasisFormulas.covSrc N K c k l = covCoef N c k l) ∧
+    (∀ i, FDA.Generated.BasisFormulas.normSqSrc N K G c i = normSqBasis K G c i) ∧
+    FDA.Generated.BasisFormulas.normPowerSrc = normPower ∧
+    (∀ w, FDA.Generated.BasisFormulas.rescaleReestimatesSrc w = rescaleReestimates w) ∧
+    FDA.Generated.BasisFormulas.rescalePowerSrc = rescalePower := by
+  have hinner : ∀ i l, FDA.Generated.BasisFormulas.innerSrc N K G c i l = innerBasis K G c i l := by
+    intro i l
+    simp only [FDA.Generated.BasisFormulas.innerSrc, FDA.NpM.matmul, FDA.NpM.transpose, innerBasis,
+      Finset.sum_mul, Finset.mul_sum]
+    first
+      | (apply Finset.sum_congr rfl; intro a _; apply Finset.sum_congr rfl; intro b _; ring1)
+      | (rw [Finset.sum_comm]
+         first
+           | done
+           | (apply Finset.sum_congr rfl; intro a _; apply Finset.sum_congr rfl; intro b _; ring1))
+  refine ⟨?_, ?_, ?_, hinner, ?_, ?_, ?_, ?_, ?_⟩
+  · intro i j; rfl
+  · intro i k; rfl
+  · intro i k; rfl
+  · intro k l
+    simp only [FDA.Generated.BasisFormulas.covSrc, FDA.NpM.divc, FDA.NpM.matmul, FDA.NpM.transpose, covCoef]
+    rfl
+  · intro i
+    simp only [FDA.Generated.BasisFormulas.normSqSrc, FDA.NpM.diag, normSqBasis]
+    exact hinner i i
+  · norm_num [FDA.Generated.BasisFormulas.normPowerSrc, normPower]
+  · intro w; rfl
+  · norm_num [FDA.Generated.BasisFormulas.rescalePowerSrc, rescalePower]
 
 /-! ## Non-vacuity -/
 
